@@ -734,12 +734,14 @@ func implC14(h caseHead, raw []byte) map[string]any {
 		m := r.(map[string]any)
 		focus, _ := m["focusNode"].(string)
 		entry := map[string]any{"location": locStr(m["location"])}
-		var tl []any
+		var tl, tc []any
 		ts, _ := m["trace"].([]any)
 		for _, t := range ts {
 			tl = append(tl, locStr(t.(map[string]any)["location"]))
+			tc = append(tc, t.(map[string]any)["component"])
 		}
 		entry["traceLocations"] = tl
+		entry["traceComponents"] = tc
 		// everything except the locations, to check that source maps change nothing else
 		delete(m, "location")
 		for _, t := range ts {
@@ -754,7 +756,7 @@ func implC14(h caseHead, raw []byte) map[string]any {
 	json.Unmarshal([]byte(h.Data), &nodes)
 	var plain []map[string]any
 	for _, n := range nodes {
-		if ts, ok := n["@type"].([]any); ok && len(ts) == 1 && ts[0] == NS+"T" {
+		if ts, ok := n["@type"].([]any); ok && len(ts) == 1 && (ts[0] == NS+"T" || ts[0] == NS+"K") {
 			plain = append(plain, n)
 		}
 	}
